@@ -430,6 +430,13 @@ fn eval_c04(job: &Job) -> JobResult {
         if sum.verdict == Verdict::Race {
             res.traces_validated += 1;
         } else {
+            // attribution (for the known-findings list): does the race also disappear from the
+            // reference when the SeqCst fences are totally ordered inside happens-before?
+            let mut refinfo = refinfo;
+            if rc11::supported(p) && p.threads.iter().flatten().filter(|o| matches!(o.k, K::Fence { mo: MO::Sc })).count() >= 2 {
+                let r = rc11::enumerate(p, Variant::Rc11ScFenceHb, RC_MAX_STATES);
+                refinfo["attribution"] = json!(if !r.truncated && !r.race { "seqcst-fences-as-happens-before" } else { "unattributed" });
+            }
             res.violations.push(viol("missed_race", sum.verdict.short(), "Race".into(), msg, refinfo));
         }
     } else if sum.verdict == Verdict::Ok {
